@@ -192,6 +192,113 @@ def run_race(tgt, a, b):
     return o
 
 
+# ---- C09: schedules and faults around the re-binding that follows an identity change ----
+# (a) two threads operating on DIFFERENT value objects (possibly of different backing files): the first is paused at a
+#     chosen point of the store (first close / first open / first read_value it performs - all three occur inside the
+#     re-binding that follows an identity change) and the second is given time to run meanwhile;
+# (b) a fault of the platform: opening / creating a store file fails with OSError for the n-th .. (n+count-1)-th open
+#     performed while the fault is armed (EMFILE, ENOSPC, EACCES); the application sees the error and carries on.
+import errno  # noqa: E402
+PAUSE = {'where': None, 'thread': None, 'paused': threading.Event(), 'resume': threading.Event()}
+FAULT = {'armed': False, 'skip': 0, 'count': 0, 'errno': errno.EMFILE, 'fired': 0}
+_ORIG_INIT, _ORIG_CLOSE, _HOOKED_READ_VALUE = MmapedDict.__init__, MmapedDict.close, MmapedDict.read_value
+
+
+def _pause_point(where):
+    if PAUSE['where'] == where and threading.current_thread() is PAUSE['thread']:
+        PAUSE['where'] = None
+        PAUSE['paused'].set()
+        PAUSE['resume'].wait(5.0)
+
+
+def _init_hook(self, filename, *a, **k):
+    _pause_point('open')
+    if FAULT['armed'] and not (a and a[0]) and not k.get('read_mode'):
+        if FAULT['skip'] > 0:
+            FAULT['skip'] -= 1
+        elif FAULT['count'] > 0:
+            FAULT['count'] -= 1
+            FAULT['fired'] += 1
+            raise OSError(FAULT['errno'], os.strerror(FAULT['errno']), filename)
+    return _ORIG_INIT(self, filename, *a, **k)
+
+
+def _close_hook(self):
+    _pause_point('close')
+    return _ORIG_CLOSE(self)
+
+
+def _read_value_hook2(self, key):
+    _pause_point('read_value')
+    return _HOOKED_READ_VALUE(self, key)
+
+
+MmapedDict.__init__ = _init_hook
+MmapedDict.close = _close_hook
+MmapedDict.read_value = _read_value_hook2
+
+
+# the scripted clock of a racing thread is its own (a thread paused while it creates its child must not read the set-time
+# the other thread scripted)
+_TL = threading.local()
+time.time = lambda: CLOCK[0] if getattr(_TL, 'clock', None) is None else _TL.clock
+
+
+def simple_op(w, op):
+    """an update / creation a thread performs on its own (no observation)"""
+    kind = op[0]
+    values.ValueClass = w.cls
+    if kind == 'child':
+        target(w, op[2], op[3])
+    elif kind == 'inc':
+        target(w, op[2], op[3]).inc(op[4])
+    elif kind == 'dec':
+        target(w, op[2], op[3]).dec(op[4])
+    elif kind == 'set':
+        _TL.clock = op[5]
+        target(w, op[2], op[3]).set(op[4])
+    elif kind == 'obs':
+        target(w, op[2], op[3]).observe(op[4])
+    else:
+        raise ValueError('not an operation a racing thread performs: %r' % (op,))
+
+
+def run_race2(w, op_a, op_b, where):
+    """thread A performs op_a and is paused at its first `where` of the store; thread B then performs op_b and gets 0.15 s
+    to run meanwhile; then A is released and both are joined"""
+    errs = []
+
+    def work(op):
+        try:
+            simple_op(w, op)
+        except BaseException as e:      # noqa
+            errs.append(type(e).__name__ + ': ' + str(e)[:100])
+    ta = threading.Thread(target=work, args=(op_a,))
+    tb = threading.Thread(target=work, args=(op_b,))
+    PAUSE['paused'].clear()
+    PAUSE['resume'].clear()
+    PAUSE['thread'] = ta
+    PAUSE['where'] = where
+    ta.start()
+    for _ in range(200):
+        if PAUSE['paused'].wait(0.01) or not ta.is_alive():
+            break
+    paused = PAUSE['paused'].is_set()
+    tb.start()
+    tb.join(0.15 if paused else 5.0)
+    b_ran_inside = paused and not tb.is_alive()
+    PAUSE['where'] = None
+    PAUSE['resume'].set()
+    ta.join(5.0)
+    tb.join(5.0)
+    PAUSE['thread'] = None
+    o = {'paused2': bool(paused), 'where': where, 'second_thread_ran_meanwhile': bool(b_ran_inside)}
+    if errs:
+        o['exc'] = 'ThreadError'
+        o['msg'] = '; '.join(errs)
+    return o
+
+
 def run_case(case):
     path = tempfile.mkdtemp(dir=BASE)
     os.environ['PROMETHEUS_MULTIPROC_DIR'] = path
@@ -206,6 +313,12 @@ def run_case(case):
         for op in case['ops']:
             o = {}
             kind = op[0]
+            faulted = kind == 'fault'
+            if faulted:
+                # ['fault', worker, skip, count, errno name, op]: op is performed while opening a store file fails
+                FAULT.update(armed=True, skip=op[2], count=op[3], errno=getattr(errno, op[4]), fired=0)
+                op = op[5]
+                kind = op[0]
             try:
                 if kind == 'spawn' or kind == 'restart':
                     workers[op[1]] = Worker(op[2])
@@ -293,6 +406,8 @@ def run_case(case):
                         target(w, op[2], op[3]).set_to_current_time()
                     elif kind == 'race':
                         o = run_race(target(w, op[2], op[3]), op[4], op[5])
+                    elif kind == 'race2':
+                        o = run_race2(w, op[2], op[3], op[4])
                     elif kind == 'obs':
                         target(w, op[2], op[3]).observe(op[4])
                     elif kind == 'get':
@@ -312,6 +427,9 @@ def run_case(case):
                 o = {'exc': type(e).__name__, 'msg': str(e)[:200]}
             finally:
                 values.ValueClass = saved_cls
+                FAULT['armed'] = False
+            if faulted:
+                o['fault_fired'] = FAULT['fired']
             if snap:
                 o['snap'] = dict(read_dir(path, sorted(_ORIG_GLOB(os.path.join(path, '*.db'))))[1])
             obs.append(o)
